@@ -15,6 +15,16 @@
 //	assignedIn3   -> extAssignedByCall  the caller's names such a call writes
 //	usedNames     -> fc.extUsedByCall   the caller's names such a call reads
 //	genFuncM(end) -> extRegister        records the parameter layout of every translated function for later call sites
+//	structOf      -> extFlatten         a struct parameter with EMBEDDED structs (`RGBLuminanceSource{LuminanceSourceBase; …}`,
+//	                                     `GoImageLuminanceSource{*RGBLuminanceSource}`): the promoted fields are fields
+//	genRegion     -> extRegionCond      region spec `F@if:<k>>`: the condition of the k-th top-level `if` of F as a Bool function
+//	              -> extRegionOffsets   region bounds `name+k`: k top-level statements after the one found for `name`
+//	              -> fc.extPrescanRegion  uninterpreted interface calls as parameters (above); the translatable fields of
+//	                                     struct variables are locals of the region (writes through translated methods rebind
+//	                                     them, `x_f` may be an output); outputs that are slices declared outside may be written
+//	lexpr (also)                          `xs[a:b]` of an integer slice as a VALUE (`Gzx.GoM.sliceL`, bounds checked against
+//	                                     len: the translator's slices have cap = len, as every slice from make has)
+//	mblock (also)                         `for a, b = e1, e2; cond; post` (assignment, not declaration, in the header)
 //
 // Run-time library: lean/Gzx/GoMExt.lean (`mk2`, `idxRow`, `setRow`).
 package main
@@ -24,8 +34,13 @@ import (
 	"go/ast"
 	"go/token"
 	"go/types"
+	"sort"
 	"strings"
+
+	"golang.org/x/tools/go/packages"
 )
+
+func sortStrings(s []string) { sort.Strings(s) }
 
 const list2 = "List (List Int)"
 
@@ -340,6 +355,30 @@ func (fc *fnCtx) extCall(ci extCallee, args []ast.Expr, lvl int) (pre string, re
 // ---------- expressions ----------
 
 func (fc *fnCtx) extLexpr(ex ast.Expr) (string, bool, error) {
+	if se, ok := ex.(*ast.SliceExpr); ok && !se.Slice3 {
+		t := fc.p.TypesInfo.TypeOf(se.X)
+		if _, isSlice := t.Underlying().(*types.Slice); isSlice {
+			if lt, err := leanTypeM(t); err == nil && lt == "List Int" {
+				base, err := fc.lexpr(se.X)
+				if err != nil {
+					return "", true, err
+				}
+				lo, hi := "0", "(Gzx.GoM.len "+base+")"
+				if se.Low != nil {
+					if lo, err = fc.expr(se.Low); err != nil {
+						return "", true, err
+					}
+				}
+				if se.High != nil {
+					if hi, err = fc.expr(se.High); err != nil {
+						return "", true, err
+					}
+				}
+				needExt(fc.m.module)
+				return fc.bind(fmt.Sprintf("Gzx.GoM.sliceL %s %s %s", base, lo, hi)), true, nil
+			}
+		}
+	}
 	if ix, ok := ex.(*ast.IndexExpr); ok {
 		if name, ok := fc.local2(ix.X); ok {
 			i, err := fc.expr(ix.Index)
@@ -581,6 +620,18 @@ func (fc *fnCtx) extStmt(s ast.Stmt, rest []ast.Stmt, lvl int) (string, bool, er
 
 	case *ast.ExprStmt:
 		if call, ok := x.X.(*ast.CallExpr); ok {
+			if fc.m.region && regionFields[fc.m] {
+				// a region with struct-field state: calls of translated methods are part of the data flow
+				if _, _, ok := fc.methodCallee(call); ok {
+					text, handled, err := fc.mcallStmt(call, lvl)
+					if handled {
+						if err != nil {
+							return "", true, err
+						}
+						return cont(text)
+					}
+				}
+			}
 			if ci, args, ok := fc.extCalleeOf(call); ok {
 				pre, _, err := fc.extCall(ci, args, lvl)
 				if err != nil {
@@ -624,6 +675,12 @@ func (fc *fnCtx) extStmt(s ast.Stmt, rest []ast.Stmt, lvl int) (string, bool, er
 		}
 
 	case *ast.ForStmt:
+		// for a, b = e1, e2; cond; post { body }   ==>   a, b = e1, e2; for ; cond; post { body }
+		if as, ok := x.Init.(*ast.AssignStmt); ok && as.Tok == token.ASSIGN {
+			loop := &ast.ForStmt{For: x.For, Cond: x.Cond, Post: x.Post, Body: x.Body}
+			text, err := fc.mblock(append([]ast.Stmt{as, loop}, rest...), lvl)
+			return text, true, err
+		}
 		// for a, b := e1, e2; cond(a); a, b = a±k, f(b) { body }   ==>   b := e2; for a := e1; cond(a); a ±= k { body; b = f(b) }
 		init, ok1 := x.Init.(*ast.AssignStmt)
 		post, ok2 := x.Post.(*ast.AssignStmt)
@@ -736,8 +793,42 @@ func (fc *fnCtx) opaqueCall(call *ast.CallExpr, result types.Type) (pname, ptype
 
 // extPrescanRegion (called by genRegion before the translation): every uninterpreted call in the region becomes a
 // PARAMETER `(obj_M : Int → … → τ)` of the region (after the ordinary parameters, in source order).
-func (fc *fnCtx) extPrescanRegion(region []ast.Stmt) []string {
+func (fc *fnCtx) extPrescanRegion(region []ast.Stmt, outs []string) []string {
 	var params []string
+	// outputs that are fields of struct variables: the fields become locals of the region
+	for _, o := range outs {
+		for sn, st := range fc.structs {
+			if strings.HasPrefix(o, sn+"_") {
+				regionFields[fc.m] = true
+				_ = st
+			}
+		}
+	}
+	if regionFields[fc.m] {
+		var names []string
+		for sn := range fc.structs {
+			names = append(names, sn)
+		}
+		sortStrings(names)
+		for _, sn := range names {
+			st := fc.structs[sn]
+			for j := 0; j < st.NumFields(); j++ {
+				if flt, err := leanTypeM(st.Field(j).Type()); err == nil {
+					fc.declare(sn+"_"+st.Field(j).Name(), flt)
+				}
+			}
+		}
+		fc.m.tie = true
+	}
+	// outputs that are slices declared outside the region may be written inside it
+	for _, o := range outs {
+		for i, pn := range fc.paramNames {
+			if pn == o && fc.m.ltype[o] == "List Int" {
+				fc.paramNames = append(fc.paramNames[:i:i], fc.paramNames[i+1:]...)
+				break
+			}
+		}
+	}
 	for _, st := range region {
 		ast.Inspect(st, func(n ast.Node) bool {
 			call, ok := n.(*ast.CallExpr)
@@ -809,4 +900,154 @@ func (fc *fnCtx) extOpaqueAssign(x *ast.AssignStmt, call *ast.CallExpr, lvl int)
 	}
 	fmt.Fprintf(&sb, "%slet %s : %s := %s\n", ind(lvl), fc.name(tgt.Name), lt, val)
 	return sb.String(), true, nil
+}
+
+// ---------- embedded structs ----------
+
+var flatCache = map[*types.Struct]*types.Struct{}
+
+// extFlatten: the struct with the fields of its embedded structs (values or pointers) spliced in, recursively.
+// A struct without embedded structs is returned as it is.
+func extFlatten(st *types.Struct) *types.Struct {
+	if st == nil {
+		return nil
+	}
+	if f, ok := flatCache[st]; ok {
+		return f
+	}
+	any := false
+	var vars []*types.Var
+	var walk func(s *types.Struct, depth int)
+	walk = func(s *types.Struct, depth int) {
+		for j := 0; j < s.NumFields(); j++ {
+			f := s.Field(j)
+			if f.Embedded() && depth < 4 {
+				t := f.Type()
+				if pt, ok := t.Underlying().(*types.Pointer); ok {
+					t = pt.Elem()
+				}
+				if in, ok := t.Underlying().(*types.Struct); ok {
+					any = true
+					walk(in, depth+1)
+					continue
+				}
+			}
+			vars = append(vars, f)
+		}
+	}
+	walk(st, 0)
+	res := st
+	if any {
+		seen := map[string]bool{}
+		var uniq []*types.Var
+		for _, v := range vars {
+			if !seen[v.Name()] { // the shallowest / first declaration wins, as in Go's selector rules for the cases used here
+				seen[v.Name()] = true
+				uniq = append(uniq, v)
+			}
+		}
+		res = types.NewStruct(uniq, nil)
+	}
+	flatCache[st] = res
+	return res
+}
+
+// ---------- regions ----------
+
+// regionFields: regions whose struct variables' fields are locals (set by the prescan)
+var regionFields = map[*mstate]bool{}
+
+// extRegionOffsets: `name+k` -> (`name`, k)
+func extRegionOffsets(b string) (string, int) {
+	if i := strings.LastIndex(b, "+"); i > 0 {
+		k := 0
+		if _, err := fmt.Sscanf(b[i+1:], "%d", &k); err == nil && k >= 0 {
+			return b[:i], k
+		}
+	}
+	return b, 0
+}
+
+// extRegionCond: `F@if:<k>>` — the condition of the k-th top-level `if` statement of F (1-based) as a Bool-valued
+// function of the parameters / receiver fields it mentions.
+func extRegionCond(e entry, fd *ast.FuncDecl, spec string) (*ast.IfStmt, bool, error) {
+	if !strings.HasPrefix(spec, "if:") {
+		return nil, false, nil
+	}
+	k := 0
+	if _, err := fmt.Sscanf(spec[3:], "%d", &k); err != nil || k < 1 {
+		return nil, true, fmt.Errorf("bad region spec %s", spec)
+	}
+	n := 0
+	for _, st := range fd.Body.List {
+		if is, ok := st.(*ast.IfStmt); ok {
+			n++
+			if n == k {
+				if is.Init != nil {
+					return nil, true, fmt.Errorf("if with init")
+				}
+				return is, true, nil
+			}
+		}
+	}
+	return nil, true, fmt.Errorf("function has no %d-th top-level if", k)
+}
+
+// extGenCond emits `def <lean> <params> : Res Bool := .ok (<cond>)` for the condition of `is`.
+func extGenCond(p *packages.Package, e entry, fd *ast.FuncDecl, fname, rng string, is *ast.IfStmt) (string, error) {
+	fc := newMCtx(p, e.module, e.lean)
+	fc.m.region = true
+	seen := map[*types.Var]bool{}
+	var fvs []*types.Var
+	ast.Inspect(is.Cond, func(n ast.Node) bool {
+		if id, ok := n.(*ast.Ident); ok {
+			if obj, ok := p.TypesInfo.Uses[id].(*types.Var); ok && !obj.IsField() && obj.Pkg() != nil && obj.Parent() != obj.Pkg().Scope() && !seen[obj] {
+				seen[obj] = true
+				fvs = append(fvs, obj)
+			}
+		}
+		return true
+	})
+	sort.Slice(fvs, func(i, j int) bool { return fvs[i].Pos() < fvs[j].Pos() })
+	var params []string
+	type sparam struct {
+		name string
+		st   *types.Struct
+		at   int
+	}
+	var sparams []sparam
+	for _, obj := range fvs {
+		lt, err := leanTypeM(obj.Type())
+		if err != nil {
+			if st := structOf(obj.Type()); st != nil {
+				fc.structs[obj.Name()] = st
+				sparams = append(sparams, sparam{obj.Name(), st, len(params)})
+				continue
+			}
+			return "", fmt.Errorf("condition mentions %s of type %s", obj.Name(), obj.Type())
+		}
+		params = append(params, fmt.Sprintf("(%s : %s)", leanIdent(obj.Name()), lt))
+		fc.declare(obj.Name(), lt)
+		fc.paramNames = append(fc.paramNames, obj.Name())
+	}
+	cond, err := fc.expr(is.Cond)
+	if err != nil {
+		return "", err
+	}
+	if len(fc.m.pre) > 0 {
+		return "", fmt.Errorf("checked operation in the condition")
+	}
+	for i := len(sparams) - 1; i >= 0; i-- {
+		sp := sparams[i]
+		var fps []string
+		for j := 0; j < sp.st.NumFields(); j++ {
+			key := sp.name + "_" + sp.st.Field(j).Name()
+			if lt, ok := fc.fieldsUsed[key]; ok {
+				fps = append(fps, fmt.Sprintf("(%s : %s)", key, lt))
+			}
+		}
+		params = append(params[:sp.at], append(fps, params[sp.at:]...)...)
+	}
+	fc.m.retType = "Bool"
+	return fc.emit(e.pkg+"."+fname+" (condition "+rng+")", params, "  .ok ("+cond+")"), nil
 }
